@@ -96,10 +96,29 @@ def part_refit(ctx):
         for ci in range(len(cls.configs)):
             for h in (wh if cls.kind == adapters.WHOLE else rw)[: ctx.pick(1, 2) if cls.heavy else 2]:
                 jobs.append(dict(adapter=n, cfg=ci, seed=ctx.seed, history=h, reuse=True))
+    # parameter sweeps without clone: the object of configuration j is fitted and used, re-parameterised with set_params to
+    # configuration i and re-fitted; it must then answer like a fresh estimator of configuration i (third lifetime)
+    def reconf(k):
+        return {"op": "reconf", "b": [], "knob": k, "expect_ok": True}
+    for n, cls in sorted(all_adapters().items()):
+        nc = len(cls.configs)
+        if nc < 2:
+            continue
+        pairs = [(1, 0), (0, 1)] + ([(nc - 1, 0)] if nc > 2 else [])
+        if cls.heavy:
+            pairs = pairs[: ctx.pick(1, 3)]
+        for cj, ci in pairs:
+            if cls.kind == adapters.WHOLE:
+                h = [call("fit", [4]), call("transform", [1]), reconf(ci + 1), call("fit", [4]), call("transform", [1]), call("transform", [2]),
+                     new, call("fit", [4]), call("transform", [1]), call("transform", [2])]
+            else:
+                h = [call("fit", [1, 2, 3]), call("transform", [1, 4]), reconf(ci + 1), call("fit", [1, 2, 3]), call("transform", [1, 3, 2, 4]),
+                     new, call("fit", [1, 2, 3]), call("transform", [1, 3, 2, 4])]
+            jobs.append(dict(adapter=n, cfg=cj, seed=ctx.seed, history=h, reuse=True, cfg_in_ids=True))
     light = [j for j in jobs if not all_adapters()[j["adapter"]].heavy]
     heavy = sorted([j for j in jobs if all_adapters()[j["adapter"]].heavy], key=lambda j: (j["adapter"], j["cfg"]))
     ign = ("arguments_modified", "constructor_parameter_objects_modified", "temporary_files_left_behind", "transform_changed_the_model",
-           "fit_returns_self")
+           "fit_returns_self", "same_seed_same_model")
     # one pool for both kinds (the slow, re-compiling light adapters and the heavy LOT adapters overlap)
     mixed = []
     for k in range(max(len(light), len(heavy))):
